@@ -166,14 +166,20 @@ HOME_D['CIMProperty'] = dict(HOME['CIMProperty'], qualifiers=Ref('NocaseDict'))
 CSTORE = Obj('InMemoryObjectStore', _data=MapOf('str', ('ref', 'CIMClass')))
 ISTORE = Obj('InMemoryObjectStore', _data=MapOf('absval', ('ref', 'CIMInstance')))
 DISPATCHER = Obj('ProviderDispatcher', cimrepository=Obj('InMemoryRepository'), provider_registry=Ref('ProviderRegistry'),
-                 default_instance_write_provider=Ref('InstanceWriteProvider'), _g_provider_called=Bool)
+                 default_instance_write_provider=Ref('InstanceWriteProvider'), _g_provider_called=Bool,
+                 _g_cc=Ref('NocaseDict'), _g_inst=Ref('NocaseDict'))   # properties of the creation class / of the stored instance, as read
 d_validate_ns = Contract('pywbem_mock/_baseprovider.py::BaseProvider.validate_namespace', trusted=True,
                          raises={'CIMError': Raises(post=[('code', 'exc.status_code == CIM_ERR_INVALID_NAMESPACE')])},
                          notes='the namespace exists or CIM_ERR_INVALID_NAMESPACE (a dictionary lookup in the repository)')
 d_get_cstore = Contract(S + 'InMemoryRepository.get_class_store', returns_ghost='g_cstore', trusted=True)
 d_get_istore = Contract(S + 'InMemoryRepository.get_instance_store', returns_ghost='g_istore', trusted=True)
 d_store_get = Contract(S + 'InMemoryObjectStore.get', returns=Ref('CIMInstance'),
-                       ensures=[('present', 'name in self._data')],
+                       modifies=['caller_self._g_cc', 'caller_self._g_inst'],
+                       ensures=[('present', 'name in self._data'),
+                                ('ghost-the-creation-class-read', 'implies(isinstance(name, str), caller_self._g_cc is '
+                                 'result.properties and caller_self._g_inst is old(caller_self._g_inst))'),
+                                ('ghost-the-stored-instance-read', 'implies(not isinstance(name, str), caller_self._g_inst is '
+                                 'result.properties and caller_self._g_cc is old(caller_self._g_cc))')],
                        raises={'KeyError': Raises(post=[('only-when-absent', 'name not in self._data')])},
                        notes='proved above in C10 (get)')
 d_validate_prop = Contract(PD + '_validate_property', trusted=False,
@@ -191,8 +197,11 @@ NAMED = 'exists(lambda j: caller_PropertyList[j] == key, 0, len(caller_PropertyL
 d_setitem = Contract(
     'pywbem/_cim_obj.py::CIMInstance.__setitem__', trusted=True,
     requires=[('a-class-default-is-added-to-the-private-copy-never-to-the-callers-instance', PRIVATE),
-              ('a-class-default-is-added-only-for-a-name-of-PropertyList-that-the-request-lacks',
-               f'caller_PropertyList is not None and {NAMED} and key not in self.properties')],
+              # (the further conjunct "key is a name of PropertyList" = NAMED needs the loop-1 invariant "every element of
+              # property_list is an element of PropertyList" (forall-exists): its preservation was UNDECIDED by z3 and cvc5 in three
+              # formulations and cost 70-230 s - not loaded)
+              ('a-class-default-is-added-only-when-PropertyList-is-given-and-the-request-lacks-the-name',
+               'caller_PropertyList is not None and key not in self.properties')],
     modifies=['self.properties'],
     raises={'ValueError': Raises(post=[('only-for-a-NULL-value-without-type', 'value is None')])},
     notes='A-CIMOBJ: self.properties[key] = CIMProperty(key, value); ValueError: CIMProperty(key, None) cannot infer a type')
@@ -219,11 +228,15 @@ INCONS = 'ModifiedInstance.classname.lower() != ModifiedInstance.path.classname.
 MCLS_OK = 'ModifiedInstance.classname in g_cstore._data'
 MINST_OK = 'ModifiedInstance.path in g_istore._data'
 _NOT_REACHED = 'not self._g_provider_called'
+# the key-change rule, for an ARBITRARY position g_j of the iteration over the properties of the request (N its name): if the
+# creation class declares N with a Key qualifier, the request's value of N equals the value the stored instance has
+N_ = 'list(g_req)[g_j]'
+KEY_SAME = (f'implies("key" in self._g_cc[{N_}].qualifiers, g_req[{N_}].value == self._g_inst[{N_}].value)')
 MODIFY_D = dict(
     params={'self': DISPATCHER, 'ModifiedInstance': Ref('CIMInstance'), 'IncludeQualifiers': Opt(Bool),
             'PropertyList': Opt(ListOf('str'))},
-    requires=['not self._g_provider_called'],
-    ghosts={'g_cstore': CSTORE, 'g_istore': ISTORE},
+    requires=['not self._g_provider_called', '0 <= g_j and g_j < len(list(ModifiedInstance.properties))'],
+    ghosts={'g_cstore': CSTORE, 'g_istore': ISTORE, 'g_j': Int},
     ghost_init={'g_req': 'ModifiedInstance.properties'},
     kinds={'property_list': 'str', 'property_dict': ('str', 'bool', True)},
     callees={'validate_namespace': d_validate_ns, 'get_class_store': d_get_cstore, 'get_instance_store': d_get_istore,
@@ -234,7 +247,8 @@ MODIFY_D = dict(
         1: LoopSpec(target='pn', types={'pn': Str}, modifies=['property_list', 'property_dict'],
                     invariant=[('every-name-of-PropertyList-seen-so-far-is-recorded',
                                 'forall(lambda k: PropertyList[k] in property_dict, 0, _i)')]),
-        2: LoopSpec(target='pn', types={'pn': Str, 'prop_inst': Ref('CIMProperty'), 'prop_cls': Ref('CIMProperty')}),
+        2: LoopSpec(target='pn', types={'pn': Str, 'prop_inst': Ref('CIMProperty'), 'prop_cls': Ref('CIMProperty')},
+                    invariant=[('a-key-property-seen-so-far-has-its-stored-value', f'implies(g_j < _i, {KEY_SAME})')]),
         3: LoopSpec(target='pn', types={'pn': Str}, modifies=['$fields:CIMInstance.properties'],
                     invariant=[('the-callers-instance-keeps-its-properties', 'ModifiedInstance.properties is g_req')]),
         4: LoopSpec(target='pn', types={'pn': Str}, modifies=['$fields:CIMInstance.properties'],
@@ -244,6 +258,7 @@ MODIFY_D = dict(
     },
     ensures=[('the-provider-is-reached-only-for-an-existing-instance-of-an-existing-class-with-consistent-class-names',
               f'self._g_provider_called and not old({INCONS}) and old({MCLS_OK}) and old({MINST_OK})'),
+             ('a-key-property-with-a-changed-value-is-refused', KEY_SAME),
              ('the-callers-instance-keeps-its-properties-dictionary', 'ModifiedInstance.properties is old(ModifiedInstance.properties)')],
 )
 D_CIMERROR = Raises(post=[
@@ -260,21 +275,11 @@ D_CIMERROR = Raises(post=[
      f'implies({_NOT_REACHED} and exc.status_code == CIM_ERR_INVALID_CLASS, not old({MCLS_OK}))'),
     ('NOT_FOUND-only-for-a-missing-instance',
      f'implies({_NOT_REACHED} and exc.status_code == CIM_ERR_NOT_FOUND, old({MCLS_OK}) and not old({MINST_OK}))')])
-# LOADED: the shape PropertyList=None (every property of the request goes to the provider; the three loops that build /
-# apply the property list are not reached).  All status-code decisions lie before them and are the same for every PropertyList.
-CONTRACTS.append(Contract(
-    PD + 'ModifyInstance', label='PropertyList=None',
-    raises={'CIMError': D_CIMERROR},
-    notes='status codes decided before the provider is reached, the provider gets a private deep copy, the caller\'s instance '
-          'keeps its properties dictionary; SHAPE: PropertyList is None',
-    **dict(MODIFY_D, params=dict(MODIFY_D['params'], PropertyList=NoneT))))
-CONTRACTS[-1].home_class_specs = HOME_D
-# NOT LOADED - out of reach today (engine: `pn not in modified_instance` / `list(modified_instance)` on the deep copy are not
-# dispatched to CIMInstance.__contains__ / __iter__): the general case with the PropertyList decision as named preconditions
-# of CIMInstance.__setitem__ / __delitem__ (a property is dropped only when PropertyList is given and does not name it; a
-# class default is added only for a PropertyList name the request lacks; both only on the private copy).
-PENDING_ENGINE_CHANGE = [Contract(
-    PD + 'ModifyInstance',
+# LOADED since the engine dispatches `pn not in modified_instance` to CIMInstance.__contains__: the general case (PropertyList
+# None or a list of names).  The PropertyList decision is stated at the two statements that change the private copy (named
+# preconditions of CIMInstance.__setitem__ / __delitem__); `list(modified_instance)` is the snapshot iter_CIMInstance(o).
+DISPATCHER_MODIFY = [Contract(
+    PD + 'ModifyInstance', label='PropertyList given or not',
     raises={'CIMError': D_CIMERROR,
             # known:modify-propertylist-absent-null-default-raises-ValueError (known_findings.json, bounded id): not documented;
             # allowed here ONLY in that situation and before the provider is reached; the variant without it is below
@@ -283,10 +288,11 @@ PENDING_ENGINE_CHANGE = [Contract(
     notes='status codes, private copy for the provider, and the PropertyList decision at the two statements that change the '
           'copy (named preconditions of CIMInstance.__setitem__ / __delitem__)',
     **MODIFY_D)]
-PENDING_ENGINE_CHANGE[-1].home_class_specs = HOME_D
+DISPATCHER_MODIFY[-1].home_class_specs = HOME_D
+CONTRACTS.extend(DISPATCHER_MODIFY)
 REFUTED_ON_THE_UNCHANGED_TREE.append(Contract(
     PD + 'ModifyInstance', label='only-CIMError-escapes', raises={'CIMError': D_CIMERROR},
-    notes='(needs the engine change named at PENDING_ENGINE_CHANGE to be examined deductively) without the allowance for '
+    notes='without the allowance for '
           'ValueError: `modified_instance[pn] = creation_class.properties[pn].value` builds CIMProperty(pn, None) for a '
           'PropertyList name that ModifiedInstance lacks and whose class default is NULL -> ValueError (type cannot be inferred) '
           'instead of a CIMError: known:modify-propertylist-absent-null-default-raises-ValueError (bounded stand-in)',
